@@ -8,7 +8,12 @@ from common import hx, unhx
 from props import parsegen as G
 
 CORPUS = ['echo ""\n', "echo ''\n", "é=1\n", "日本=b a\n", "a\\\n", "x=1 y=2 z\n", "a <<E\nb\nE\n", "a <<E | b\nc\nE\n", "if a; then b; fi\n", "a # c\n", "f() { a; }\n",
-          "$(a) `b` $((1+2)) ${x:-y} $x\n", "case x in (a|b) c;; esac\n", "for i in 1 2; do a; done\n", "a && b || c &\n", "! a | b\n", "((1+2))\n", "é 'é' \"é$x\"\n"]
+          "$(a) `b` $((1+2)) ${x:-y} $x\n", "case x in (a|b) c;; esac\n", "for i in 1 2; do a; done\n", "a && b || c &\n", "! a | b\n", "((1+2))\n", "é 'é' \"é$x\"\n",
+          # comments ended by the closing backquote; a substitution's closing character after a comment
+          "echo `date # now`\n", "echo `a #c` b\n", "x=`a # c`\n", "echo \"`a #c`\" d\n", "`a #`\n", "echo $(( `a #c` )) e\n", "echo ${x:-`a #c`} f\n", "echo `a #c\n` g\n",
+          "echo $(a #c\n) h\n", "echo `a; b # c` `d # e`\n", "f() { echo `a # c`; }\n",
+          # (F66) a line continuation directly before the closing brace of an expansion that ends a quotation or holds one
+          '"${x-\\\n}" b\n', '${x-"\\\n"}\n', '"a\\\n"b\n', 'echo "${x:-a\\\n}" b\n']
 
 
 class P:
@@ -51,6 +56,11 @@ class P:
             for f in findings:
                 if f.get("id") == "F28" and f.get("status") == "open":
                     return "F28"
+        src = unhx(case.split("\t")[0])
+        if impl.startswith("FAIL:") and ":end-outside:" in impl and (b"\\\n}" in src or b"\\\n\"" in src):
+            for f in findings:
+                if f.get("id") == "F66" and f.get("status") == "open":
+                    return "F66"
         return None
 
     def shrink(self, u, C):
